@@ -31,6 +31,7 @@ GRet    == IsEv("Ret") /\ st' = DoRet(st, P, [kind |-> Ev.kind, errno |-> Ev.err
 GCover  == /\ IsEv("Cover") /\ UNCHANGED st
            /\ ToSet(Ev.scripts) = Scripts(Ev.N, ToSet(Ev.bursts))
            /\ Len(Ev.scripts) = Cardinality(Scripts(Ev.N, ToSet(Ev.bursts)))
+           /\ ToSet(Ev.mixed) = MixedScripts(Ev.N) /\ Len(Ev.mixed) = Cardinality(MixedScripts(Ev.N))
            /\ Ev.mac = [i \in 1..Ev.M |-> i]            \* "MAC does not verify" at every one of the M MAC-protected reads
            /\ Ev.gone = [i \in 1..Ev.S |-> i]          \* "tag gone" at every one of the S sense calls of the operation
 Guarded == GSend \/ GSense \/ GAnswer \/ GFault \/ GRet \/ GCover
